@@ -68,6 +68,12 @@ class Check(PropertyCheck):
                 tr.take(j)
                 k += 1
                 lines += [f"disp {j} {p} {m}", "fsnap", "snap"]
+                if ep == 0 and rng.random() < 0.12:
+                    # an observer created in the middle of the first episode: after the reset it too is like new
+                    late = rng.choice(["remaining_operations -", "is_completed -", "is_completed mj", "duration -",
+                                       "earliest_start_time -", "is_scheduled -", "position_in_job -", "unscheduled -",
+                                       "makespan_reward -", "idle_reward -", "history -"])
+                    lines += ["fobs " + late, "fsnap"]
                 if ep == 0:
                     before += 1
                 else:
@@ -98,6 +104,8 @@ class Check(PropertyCheck):
             if line == "mark setup-done":
                 ctx["setup_done"] = True
             return res
+        if line.startswith(("fobs", "fcomp", "fres")) and not out.startswith("raise"):
+            ctx["setup"].append(line)        # created later: the fresh world creates it at the same place in the order
         if line == "reset":
             shadow = ImplFeat(scenario.meta.get("filter_style", "callable"))
             for l in ["new"] + ctx["setup"]:
